@@ -440,7 +440,7 @@ V("tidx-benign-ifexp", ["C02", "C04"], TI, "benign",
   (SYM, "        if tabledata.is_piecewise:\n            iq = 0\n        else:\n            iq = self.quadrature_loop_index\n", "        iq = 0 if tabledata.is_piecewise else self.quadrature_loop_index\n"))
 V("tidx-reduce-wrong-axis", ["C02"], TI, "fire", (ET, "            tbl = tbl[:, :, :1, :]", "            tbl = tbl[:, :1, :, :]"))
 
-ECP = ["EXPR-COEF-POS"]
+ECP = ["EXPR-COEF-POS", "GEN-EXPRESSION-IR", "ANALYZE-OBJECTS"]
 V("ecp-positions-of-processed", ["C04", "C05"], ECP, "fire", (REP, "    original_coefficients = ufl.algorithms.extract_coefficients(original_expr)", "    original_coefficients = ufl.algorithms.extract_coefficients(expr)"))
 V("ecp-iterate-original", ["C04", "C05"], ECP, "fire", (REP, "    for coeff in coefficients:\n        original_coefficient_positions.append(original_coefficients.index(coeff))", "    for coeff in original_coefficients:\n        original_coefficient_positions.append(original_coefficients.index(coeff))"))
 V("ecp-triple-swapped", ["C04"], ECP, "fire", (AN, "        processed_expressions += [(processed_expression, points, original_expression)]", "        processed_expressions += [(original_expression, points, processed_expression)]"))
